@@ -253,16 +253,49 @@ fn compile_inner(job: &Value) -> Value {
 
 const STACK: usize = 8 << 20;
 
-/// Run a compile job on a fresh 8 MiB thread.
-fn compile(job: &Value) -> Value {
-    let j = job.clone();
-    let h = std::thread::Builder::new()
+type JobChan = (
+    std::sync::mpsc::Sender<Value>,
+    std::sync::mpsc::Receiver<Value>,
+);
+static WORKER: std::sync::Mutex<Option<JobChan>> = std::sync::Mutex::new(None);
+
+fn spawn_worker() -> Option<JobChan> {
+    let (jtx, jrx) = std::sync::mpsc::channel::<Value>();
+    let (rtx, rrx) = std::sync::mpsc::channel::<Value>();
+    std::thread::Builder::new()
         .stack_size(STACK)
-        .spawn(move || compile_inner(&j));
-    match h.map(std::thread::JoinHandle::join) {
-        Ok(Ok(v)) => v,
-        Ok(Err(_)) => json!({"status": "panic", "where": "join"}),
-        Err(e) => json!({"status": "harness-error", "err": e.to_string()}),
+        .spawn(move || {
+            for j in jrx {
+                if rtx.send(compile_inner(&j)).is_err() {
+                    break;
+                }
+            }
+        })
+        .ok()?;
+    Some((jtx, rrx))
+}
+
+/// Run a compile job on the job thread (8 MiB stack; the thread is kept
+/// between jobs, as in a program that compiles many files, and replaced
+/// if it ever dies).
+fn compile(job: &Value) -> Value {
+    let mut w = WORKER.lock().unwrap();
+    if w.is_none() {
+        *w = spawn_worker();
+    }
+    let Some((tx, rx)) = w.as_ref() else {
+        return json!({"status": "harness-error", "err": "cannot spawn job thread"});
+    };
+    if tx.send(job.clone()).is_err() {
+        *w = None;
+        return json!({"status": "harness-error", "err": "job thread gone"});
+    }
+    match rx.recv() {
+        Ok(v) => v,
+        Err(_) => {
+            *w = None;
+            json!({"status": "panic", "where": "join"})
+        }
     }
 }
 
